@@ -85,6 +85,22 @@ PARTIAL = [
     "level, unexpected terminator / end of input in a frame / unterminated frame).  The quantifier over hosts x classes x positions "
     "is covered by the `defect` correspondence family (41 classes, every position of 11 hand-written + random hosts) with its "
     "independent oracle.",
+    "CHARACTER LEVEL (Props/C12Chars, Lemmas/DefectChars, Lemmas/ParserReach; group gC): for 24 classes — missing value, unexpected "
+    "value, dup item name, partial packet, dup header name, empty loop, unexpected delimiter, unexpected save_, null loop, invalid item "
+    "name, missing delimiter (list, table), table: missing value / missing key / stray word / null key, no block header, invalid / dup "
+    "block code, invalid / dup frame code, end of input / block header / frame header in a frame — the token-level class theorem is "
+    "carried to whole parses of TEXTS: any chunk list accepted by okC (every admissible presentation of every token, any whitespace and "
+    "comments between tokens), lines <= 2048, acceptable first character, any well-formed data blocks before and behind, any well-formed "
+    "runs around the defect: parse under accept-all returns CIF_OK with EXACTLY ONE report, the class's code, the content of the "
+    "repaired document (dup frame code: content as frames / loops, not as a document), and the LINE of the report: the report is made j "
+    "tokens into the text (j per class, from the RepAt conjunct of the _at forms), so it is on the line on which the j-th token of the "
+    "text ends or on the line on which the next token ends (the end of the text if there is none) — endLine / repAt_line, i.e. "
+    "posAfter 1 0 over the characters up to the end of that token; two candidates because RepAt does not say whether the following token "
+    "had already been scanned (they coincide when both tokens end on one line).  No premise on the fuel.  NOT carried to characters: "
+    "classes that cannot occur in an okC text or are anchored inside a token — invalid table index and text field in key position "
+    "(.tkey), C12_unquoted_key / C12_null_key_word (trimTok), C12_scanner_report_in_element_position; C12_frame_not_allowed "
+    "(max_frame_depth = 0 contradicts the premise of blocks_prefix / blocks_structure); defects inside save frames (the hosts are data "
+    "blocks), policies other than accept-all, more than one defect per text.",
 ]
 LEVEL_TEXT = ("Theorems about the executable integrated parser model + differential correspondence on planted defects (class x "
               "position x host) with an implementation-level oracle: first callback = documented code at a line within the "
